@@ -175,6 +175,14 @@ func c11Check(w *c11World, class string) {
 		vr.Assert(failed1, "C11.unbound-pod-means-the-attempt-reported-an-error"+class)
 		vr.Assert(br.Status.Phase == schedulingv1alpha2.BindRequestPhaseFailed, "C11.unbound-pod-request-reported-failed"+class)
 	}
+	if pod.Spec.NodeName == "" && !crashed && len(st.Faulted)+st.WatchFailures <= 1 {
+		// a single disturbance leaves the rollback (label removal, then the node's reservation sync)
+		// undisturbed: already now no reservation pod is left without a live consumer
+		for _, g := range []string{"g0", "g1"} {
+			attached := has(w.podGroups(), g)
+			vr.Assert(len(w.reservationPods(g)) == 0 || attached, "C11.failed-attempt-rollback-leaves-no-orphan-reservation-pod"+class)
+		}
+	}
 	if vr.AnyBool("syncBeforeRetry") {
 		// the next sync removes what the failed attempt left behind: a reservation pod exists exactly
 		// for the groups some live pod is attached to
